@@ -18,7 +18,11 @@ for b in F.all_bodies:
     if b.file.startswith("src/") and ("/tests" in b.file or b.file.endswith("tests.rs")):
         continue
     out[b.name] = [[b.debug_names.get(i + 1), b.locals[i + 1]["ty"]] for i in range(b.arg_count)]
-json.dump({"_comment": "parameter names of the reference tree by position; aliases only, see engine/rules/core/facts.py", "params": out}, open(ref_path, "w"), indent=0, sort_keys=True)
+clos = {}
+for depth in range(0, 3):
+    for parent, lst in facts.closure_signatures(F.j["bodies"], depth).items():
+        clos[parent] = [e[1] for e in lst]
+json.dump({"_comment": "parameter names (by position) and closure use signatures (by closure number) of the reference tree; aliases only, see engine/rules/core/facts.py", "params": out, "closures": clos}, open(ref_path, "w"), indent=0, sort_keys=True)
 if os.path.exists(ref_path + ".old"):
     os.remove(ref_path + ".old")
 print("%d functions" % len(out))
